@@ -5,9 +5,11 @@ import (
 	"bytes"
 	"encoding/json"
 	"fmt"
+	"reflect"
+	"sort"
 	"strings"
 	"sync"
-	"sync/atomic"
+	"time"
 
 	"golang.org/x/crypto/openpgp"
 	"pault.ag/go/debian/changelog"
@@ -37,9 +39,11 @@ func (c18) WantRace(tier string) bool { return true }
 
 func (c18) Batches(tier string, seed uint64) []core.Batch {
 	var b []core.Batch
+	// the concurrent batches come first: workers claim batches in order, so each conc batch is the first
+	// thing a fresh worker process does (no earlier batch has warmed or filled any process-wide state)
+	b = append(b, spread("conc", 4, tierN(tier, 6, 60))...)
 	b = append(b, spread("seq", 12, tierN(tier, 450, 8000))...)
 	b = append(b, spread("big", 4, tierN(tier, 3, 12))...)
-	b = append(b, spread("conc", 4, tierN(tier, 6, 60))...)
 	b = append(b, spread("reuse", 2, tierN(tier, 400, 4000))...)
 	return b
 }
@@ -91,8 +95,8 @@ var c18Entries = []c18Entry{
 	{"dependency.Parse", func(in []byte) (string, bool, string) {
 		d, err := dependency.Parse(string(in))
 		x := ""
-		if err != nil && d != nil {
-			x = "non-nil *Dependency together with an error"
+		if err != nil && carriesData(d) {
+			x = "a non-zero *Dependency together with an error"
 		}
 		if err == nil && d == nil {
 			x = "nil result without an error"
@@ -102,8 +106,8 @@ var c18Entries = []c18Entry{
 	{"dependency.ParseArch", func(in []byte) (string, bool, string) {
 		a, err := dependency.ParseArch(string(in))
 		x := ""
-		if err != nil && a != nil {
-			x = "non-nil *Arch together with an error"
+		if err != nil && carriesData(a) {
+			x = "a non-zero *Arch together with an error"
 		}
 		if err == nil && a == nil {
 			x = "nil result without an error"
@@ -123,7 +127,10 @@ var c18Entries = []c18Entry{
 		if err != nil {
 			x := ""
 			if pr != nil {
-				x = "non-nil reader together with an error"
+				// not a value unless it can be used: a reader that only repeats the failure is as good as nil
+				if para, nerr := pr.Next(); nerr == nil || para != nil {
+					x = "a usable reader together with an error"
+				}
 			}
 			return jsonRepr(nil, err), true, x
 		}
@@ -139,7 +146,10 @@ var c18Entries = []c18Entry{
 		if err != nil {
 			x := ""
 			if pr != nil {
-				x = "non-nil reader together with an error"
+				// not a value unless it can be used: a reader that only repeats the failure is as good as nil
+				if para, nerr := pr.Next(); nerr == nil || para != nil {
+					x = "a usable reader together with an error"
+				}
 			}
 			return jsonRepr(nil, err), true, x
 		}
@@ -163,8 +173,8 @@ var c18Entries = []c18Entry{
 	{"ParseDsc", func(in []byte) (string, bool, string) {
 		d, err := control.ParseDsc(bufio.NewReader(bytes.NewReader(in)), "x.dsc")
 		x := ""
-		if err != nil && d != nil {
-			x = "non-nil *DSC together with an error"
+		if err != nil && carriesData(d) {
+			x = "a non-zero *DSC together with an error"
 		}
 		if err == nil && d == nil {
 			x = "nil result without an error"
@@ -174,8 +184,8 @@ var c18Entries = []c18Entry{
 	{"ParseChanges", func(in []byte) (string, bool, string) {
 		d, err := control.ParseChanges(bufio.NewReader(bytes.NewReader(in)), "x.changes")
 		x := ""
-		if err != nil && d != nil {
-			x = "non-nil *Changes together with an error"
+		if err != nil && carriesData(d) {
+			x = "a non-zero *Changes together with an error"
 		}
 		if err == nil && d == nil {
 			x = "nil result without an error"
@@ -185,8 +195,8 @@ var c18Entries = []c18Entry{
 	{"ParseControl", func(in []byte) (string, bool, string) {
 		d, err := control.ParseControl(bufio.NewReader(bytes.NewReader(in)), "debian/control")
 		x := ""
-		if err != nil && d != nil {
-			x = "non-nil *Control together with an error"
+		if err != nil && carriesData(d) {
+			x = "a non-zero *Control together with an error"
 		}
 		if err == nil && d == nil {
 			x = "nil result without an error"
@@ -253,8 +263,8 @@ var c18Entries = []c18Entry{
 	{"changelog.ParseOne", func(in []byte) (string, bool, string) {
 		d, err := changelog.ParseOne(bufio.NewReader(bytes.NewReader(in)))
 		x := ""
-		if err != nil && d != nil {
-			x = "non-nil entry together with an error"
+		if err != nil && carriesData(d) {
+			x = "a non-zero entry together with an error"
 		}
 		if err == nil && d == nil {
 			x = "nil result without an error"
@@ -407,59 +417,75 @@ func clip(s string, n int) string {
 }
 
 // conc: sequential baseline, then 16 goroutines.
+// carriesData: a result returned next to an error counts as "a usable value" when it is a non-nil
+// pointer to something other than the zero value (or any other non-zero value).
+func carriesData(v interface{}) bool {
+	rv := reflect.ValueOf(v)
+	if !rv.IsValid() {
+		return false
+	}
+	if rv.Kind() == reflect.Ptr {
+		return !rv.IsNil() && !rv.Elem().IsZero()
+	}
+	return !rv.IsZero()
+}
+
 func (p c18) conc(c *core.C, inputs []string) {
-	// The concurrent round runs FIRST, on inputs this process has never parsed
-	// (a sequential warm-up would hide races on lazily filled state); the
-	// sequential baseline is computed afterwards.
-	base := make([][]string, len(inputs))
+	// The concurrent rounds run FIRST, on inputs this process has never parsed (a sequential warm-up
+	// would hide races on lazily filled state); the sequential baseline is computed afterwards.
+	//
+	// Inputs are handled in groups of 4; for each group G goroutines are released together and every
+	// one of them parses every input of the group through every entry point, WITHOUT any
+	// synchronisation of the harness's own between the release and the end of the round: the race
+	// detector decides by happens-before, so a monitor that touched shared atomics around each call
+	// would order the calls and hide exactly the races it is looking for. Results and call intervals are
+	// kept in goroutine-local storage and compared after the round.
 	const G = 16
-	defer func() {}()
+	type span struct{ t0, t1 int64 }
 	results := make([]map[[2]int]string, G)
-	var inflight, maxInflight int64
-	var hist [G + 1]int64
+	spans := make([][]span, G)
 	diffs := make([][]string, G)
-	var wg sync.WaitGroup
-	start := make(chan struct{})
-	for g := 0; g < G; g++ {
-		g := g
-		wg.Add(1)
-		go func() {
-			defer wg.Done()
-			defer func() {
-				if r := recover(); r != nil {
-					diffs[g] = append(diffs[g], fmt.Sprintf("panic in goroutine %d: %v", g, r))
+	for g := range results {
+		results[g] = map[[2]int]string{}
+	}
+	t00 := time.Now()
+	rounds := 0
+	for lo := 0; lo < len(inputs); lo += 4 {
+		hi := min(lo+4, len(inputs))
+		var wg sync.WaitGroup
+		start := make(chan struct{})
+		for g := 0; g < G; g++ {
+			g := g
+			wg.Add(1)
+			go func() {
+				defer wg.Done()
+				defer func() {
+					if r := recover(); r != nil {
+						diffs[g] = append(diffs[g], fmt.Sprintf("panic in goroutine %d: %v", g, r))
+					}
+				}()
+				<-start
+				for rep := 0; rep < 2; rep++ {
+					for d := 0; d < hi-lo; d++ {
+						i := lo + (d+g*rep)%(hi-lo) // first pass: all goroutines on the same input; second pass: staggered
+						for k, e := range c18Entries {
+							t0 := int64(time.Since(t00))
+							got, _, _ := e.run([]byte(inputs[i]))
+							spans[g] = append(spans[g], span{t0, int64(time.Since(t00))})
+							if prev, seen := results[g][[2]int{i, k}]; seen && prev != got {
+								diffs[g] = append(diffs[g], fmt.Sprintf("%s on input %d: two calls in one goroutine of a concurrent round differ", e.name, i))
+							}
+							results[g][[2]int{i, k}] = got
+						}
+					}
 				}
 			}()
-			results[g] = map[[2]int]string{}
-			<-start
-			// own inputs and the neighbours' (so the same text is parsed by several goroutines at once)
-			for round := 0; round < 2; round++ {
-				for i := range inputs {
-					if (i+round)%4 != g%4 && i%G != g {
-						continue
-					}
-					for k, e := range c18Entries {
-						n := atomic.AddInt64(&inflight, 1)
-						atomic.AddInt64(&hist[n], 1)
-						for {
-							m := atomic.LoadInt64(&maxInflight)
-							if n <= m || atomic.CompareAndSwapInt64(&maxInflight, m, n) {
-								break
-							}
-						}
-						got, _, _ := e.run([]byte(inputs[i]))
-						atomic.AddInt64(&inflight, -1)
-						if prev, seen := results[g][[2]int{i, k}]; seen && prev != got {
-							diffs[g] = append(diffs[g], fmt.Sprintf("%s on input %d: two concurrent calls in one goroutine differ", e.name, i))
-						}
-						results[g][[2]int{i, k}] = got
-					}
-				}
-			}
-		}()
+		}
+		close(start)
+		wg.Wait()
+		rounds++
 	}
-	close(start)
-	wg.Wait()
+	base := make([][]string, len(inputs))
 	for i, in := range inputs {
 		base[i] = make([]string, len(c18Entries))
 		for k, e := range c18Entries {
@@ -478,7 +504,36 @@ func (p c18) conc(c *core.C, inputs []string) {
 			c.Failf("%s", m)
 		}
 	}
+	// evidence only: how many calls were in flight together (from the goroutine-local intervals)
+	type ev struct {
+		t int64
+		d int
+	}
+	var evs []ev
+	for _, sp := range spans {
+		for _, x := range sp {
+			evs = append(evs, ev{x.t0, 1}, ev{x.t1, -1})
+		}
+	}
+	sort.Slice(evs, func(a, b int) bool {
+		if evs[a].t != evs[b].t {
+			return evs[a].t < evs[b].t
+		}
+		return evs[a].d < evs[b].d
+	})
+	cur, maxInflight := 0, 0
+	var hist [G + 1]int64
+	for _, e := range evs {
+		cur += e.d
+		if e.d > 0 && cur <= G {
+			hist[cur]++
+		}
+		if cur > maxInflight {
+			maxInflight = cur
+		}
+	}
 	c.Cover("conc:rounds")
+	c.CoverN("conc:barrier-rounds", int64(rounds))
 	if maxInflight >= 2 {
 		c.Cover("conc:overlap>=2")
 	}
